@@ -11,7 +11,7 @@ import numpy as np
 
 from mc import core
 from mc.core import Judgement, Recorder
-from mc.harness import TableEvaluator, bytes_of, close, make_manager, make_transforms, validate
+from mc.harness import info_state, TableEvaluator, bytes_of, close, make_manager, make_transforms, validate
 
 PROPERTY = "C06"
 RULE = (
@@ -305,6 +305,10 @@ def judge(case: dict[str, Any]) -> Judgement:
             which = "objectives" if now[0] != snap[0] else "constraints"
             nan_written = which == "constraints" and result.constraints is not None and bool(np.any(np.isnan(result.constraints)))
             j.fail(f"evaluator-result-modified:{which}" + (":nan-written" if nan_written else ""), call=k, transforms=case["transforms"])
+            break
+    for k, (result, snap) in enumerate(zip(mev.returned, mev.info_snapshots)):
+        if info_state(result) != snap:
+            j.fail("evaluator-result-modified:evaluation_info", call=k, before=[item[:3] for item in snap], after=[item[:3] for item in info_state(result)])
             break
     if memo["error"] != base["error"] or summarize(memo) != reference:
         j.fail("memoizing-evaluator-changes-results", sequence=case["sequence"], transforms=case["transforms"])
